@@ -91,3 +91,6 @@ pub use ractor::serialization::*;
 // Re-export the procedural macros so people don't need to reference them directly
 pub use ractor_cluster_derive::RactorClusterMessage;
 pub use ractor_cluster_derive::RactorMessage;
+
+#[cfg(slawlor_ractor_verif)]
+pub use net::verif_session_probe;
